@@ -28,7 +28,7 @@ from coqfmt import zraw, b, lst, opt, tup
 
 replay = common.generic_replay
 
-IMPORTS = 'Graph Standardize StandardizeTie'
+IMPORTS = 'Graph Standardize StandardizeMatch StandardizeTie'
 EXTRA = 'From Gen Require Import StdRules.'
 COLL = {0: 'double_rules', 1: 'single_rules', 2: 'metal_rules'}
 
@@ -66,12 +66,14 @@ class Recorder:
                     rec.obs['h1ok'] = valence_valid(other) or bool(rec.obs['invalid'])
                 else:
                     rec.snap = coqmol.mol_term(other)
+                    rec.rings = lst([f'({zraw(n)}, {lst(sorted(a.ring_sizes), zraw)})' for n, a in other.atoms() if a.ring_sizes])
+                    rec.natoms = len(other)
                 rec.dirty = False
             c, i = key
             stage = {1: 2, 2: 3}.get(c, 1 if (0, i) in rec.seen_double else 0)
             if c == 0:
                 rec.seen_double.add((0, i))
-            entry = {'c': c, 'ridx': i, 'stage': stage if rec.stage is None else rec.stage, 'g0': rec.snap, 'maps': [], 'obs': rec.obs}
+            entry = {'c': c, 'ridx': i, 'stage': stage if rec.stage is None else rec.stage, 'g0': rec.snap, 'maps': [], 'obs': rec.obs, 'rings': rec.rings, 'natoms': rec.natoms}
             rec.rec.append(entry)
             for mp in rec.orig(self, other, **kw):
                 entry['maps'].append(list(mp.items()))
@@ -87,7 +89,7 @@ class Recorder:
         self.qc.get_mapping = self.orig
 
     def run(self, fn, stage=None):
-        self.rec, self.snap, self.dirty, self.seen_double, self.stage, self.obs = [], None, True, set(), stage, None
+        self.rec, self.snap, self.dirty, self.seen_double, self.stage, self.obs, self.rings, self.natoms = [], None, True, set(), stage, None, '[]', 0
         try:
             out = fn()
         finally:
@@ -214,11 +216,21 @@ def mol_inputs(ck, rng):
 # correspondence: the rule engine
 
 
+MATCHER_CASES = ([], [])
+
+
+def corr_matcher(ck, rng):
+    """collected by corr_engine (same recorded runs)"""
+    return list(MATCHER_CASES[0]), list(MATCHER_CASES[1])
+
+
 def corr_engine(ck, rng):
     from chython import smiles
     n_corpus = 40 if ck.tier == 'quick' else 600
     n_decor = 60 if ck.tier == 'quick' else 800
     cases, meta = [], []
+    mcases, mmeta = MATCHER_CASES
+    del mcases[:], mmeta[:]
     rules_fired = collections.Counter()
     rules_self = {}
 
@@ -258,12 +270,23 @@ def corr_engine(ck, rng):
             add(f'step_ok {e["c"]} {e["stage"]} {e["ridx"]} {e["g0"]} {maps_term(e["maps"])} {g1}',
                 {'kind': 'step', 'tag': tag, 'mol': label, 'rule': f'{COLL[e["c"]]}[{e["ridx"]}]', 'fix_tautomers': ft,
                  'spec': f'step_spec {e["c"]} {e["ridx"]} {e["g0"]} {maps_term(e["maps"])}'})
+        # the matcher specification: the set of yielded mappings == the set of embeddings (matched rules, and a sample of unmatched ones)
+        for k, e in enumerate(rec):
+            if e['maps'] or hash_pick(label, k, 'unmatched') % 16 == 0:
+                if len(e['maps']) <= 48:
+                    mcases.append(f'matches_ok {e["c"]} {e["ridx"]} {e["rings"]} {e["g0"]} {maps_term(e["maps"])}')
+                    mmeta.append({'kind': 'matcher', 'tag': tag, 'mol': label, 'rule': f'{COLL[e["c"]]}[{e["ridx"]}]', 'yielded': len(e['maps'])})
+                    ck.count('matcher:rule ' + ('matched' if e['maps'] else 'not matched'))
         pre = next((list(mt) for mt, r, text in log if r == -1 and text == 'resonance fixed'), [])
         fixed = next((sorted(mt) for mt, r, text in log if r == -1 and text == 'standardized atoms'), [])
         if any(text.startswith('bad charge') for _, _, text in log):
             ck.count('engine:bad charge formed')
         add(f'passes_ok {b(ft)} {table_term(rec)} {zl(pre)} {rec[0]["g0"]} {final} {rlog_term(log)} {zl(fixed)}',
             {'kind': 'standardize()', 'tag': tag, 'mol': label, 'fix_tautomers': ft})
+        if rec[0]['natoms'] <= 14 and all(len(e['maps']) <= 1 for e in rec) and tag in ('doc', 'extra'):
+            mcases.append(f'passes_bf_ok {b(ft)} {zl(pre)} {rec[0]["g0"]} {final} {zl(fixed)}')
+            mmeta.append({'kind': 'standardize() with the specification matcher', 'tag': tag, 'mol': label, 'fix_tautomers': ft})
+            ck.count('matcher:whole standardize() inside Coq')
 
     inputs = mol_inputs(ck, rng)
     for tag, s in inputs:
@@ -683,7 +706,11 @@ def check_op(ck, lim, name, smi, make, renumber=True, fixed_corpus=False):
     if valid:
         if after['invalid']:
             key = f'valence:{name}:{smi}'
-            if family in ('fix_resonance', 'standardize', 'canonicalize'):
+            src = make()
+            if family in ('standardize', 'canonicalize') and all(
+                    not m._atoms[n].is_forming_single_bonds and m._atoms[n].charge > src._atoms[n].charge and valence_valid(src) for n in after['invalid']):
+                key = 'valence-error:metal-rule-forms-a-metal-cation-without-valence-state'
+            elif family in ('fix_resonance', 'standardize', 'canonicalize'):
                 try:        # is it fix_resonance alone that discharges into an atom whose valence does not survive it?
                     x = make()
                     x.kekule()
@@ -807,6 +834,13 @@ def check_op(ck, lim, name, smi, make, renumber=True, fixed_corpus=False):
             ck.count('search:isomorphism undecided (budget)')
         elif not ok:
             key = f'renumber:{name}:{smi}'
+            if name == 'neutralize':
+                # unbalanced donors / acceptors: neutralize() takes the first of several possible forms (itertools.combinations over a set)
+                try:
+                    if len(list(make()._neutralize(True))) > 1:
+                        key = 'numbering-dependent:neutralize-takes-the-first-of-several-forms'
+                except Exception:
+                    pass
             if family in ('fix_resonance', 'standardize', 'canonicalize'):
                 # is it the choice fix_resonance makes (set.pop()) among several anions that can discharge into one cation?
                 try:
@@ -859,6 +893,8 @@ def search(ck, rng):
         pool.append(('hand', s, None))
     for _, want in test_groups_data():
         pool.append(('documented result', want, None))      # the documented canonical spellings must be fixed points
+    for s in PI_COMPLEXES:
+        pool.append(('pi-complex', s, None))
     for s in AZOLIUM:
         pool.append(('azolium', s, 'kekule'))
         pool.append(('azolium', s, 'thiele'))
@@ -922,6 +958,9 @@ AZOLIUM = ['Cc1cc[nH][nH+]1', 'Cc1cc[nH+][nH]1', 'Cc1c[nH]c[nH+]1', 'Cc1c[nH+]c[
            'Cc1ccc2[nH]c[nH+]c2c1', 'Cc1ccc2[nH+]c[nH]c2c1', 'Cc1cc[nH+]n1C', 'Cc1ccn(C)[nH+]1', 'Cc1c[nH+]cn1C', 'Cc1cn(C)c[nH+]1', 'C[n+]1ccn(c1)c1ccccc1',
            'Fc1cc[nH][nH+]1', 'Fc1cc[nH+][nH]1', 'Cc1cc(CC)[nH][nH+]1', 'Cc1cc(CC)[nH+][nH]1', 'OC(=O)c1cc[nH][nH+]1.[Cl-]', 'Cc1[nH]nc[nH+]1', 'Cc1csc[nH+]1',
            'Cc1cc[nH][nH+]1.Cc1c[nH+]c[nH]1', '[Fe+2].c1cc[cH-]c1.C[c-]1cccc1']
+# metal pi-complexes spelled with coordinate bonds and a carbon radical (the left-hand sides of two metal rules), metals with and without a +1 state
+PI_COMPLEXES = ['[Fe]~1~2~3~4~[CH]5C~1=C~2C~3=C~45 |^1:1|', '[Cu]~1~2~3~4~[CH]5C~1=C~2C~3=C~45 |^1:1|', '[Ti]~1~2~3~4~[CH]5C~1=C~2C~3=C~45 |^1:1|',
+                '[Fe]~1~2~C=C~1[CH2]~2 |^1:3|', '[Cu]~1~2~C=C~1[CH2]~2 |^1:3|', '[Ni]~1~2~C=C~1[CH2]~2 |^1:3|']
 TAUT_SMILES = ['CC(=O)CC(C)=O', 'OC1=NC=CC=C1', 'O=C1NC=CC=C1', 'CC(=O)C', 'C1C=CC=N1', 'NC(N)=N.Cl', 'N1C=CN=N1.Cl', 'CC(O)=CC', 'C[C@H](F)C=O', 'C/C=C/C(C)=O',
                'CC(=O)C[C@H](C)F', 'C[C@H](N)C(=O)O', 'O=C1CCCCC1', 'OC=CC=O', 'Oc1ccccc1', 'Oc1ccc(O)cc1', 'CC(=O)Nc1ccccc1', 'c1cc[nH]n1', 'c1nc[nH]n1', 'N=C(N)c1ccccc1',
                'C[NH3+].[Cl-]', 'OC(=O)CN', 'OCC(O)C=O', 'O=CC(O)C(O)CO', 'CC(=N)C', 'CC(=O)CC#N', 'O=C1C=CC(=O)C=C1', 'Cc1cc(=O)[nH]c(=O)[nH]1', 'Oc1ncnc2[nH]cnc12']
@@ -1102,7 +1141,7 @@ def run(ck):
         laps[name] = round(time.time() - t0, 1)
         t0 = time.time()
 
-    proved = common.standard_proof_steps(ck, translators=['elements', 'stdrules'], extra_targets=('model/StandardizeTie.vo',))
+    proved = common.standard_proof_steps(ck, translators=['elements', 'stdrules'], extra_targets=('model/StandardizeTie.vo', 'model/StandardizeMatch.vo'))
     lap('proof')
     tied = True
     disagreeing = []
@@ -1113,6 +1152,8 @@ def run(ck):
     else:
         batches = [('c14_engine', corr_engine, 'correspondence: Standardize.__standardize / standardize() == Coq model on the recorded mappings (every matched rule as a '
                     'step from the intermediate molecule, matcher specification match_ok on every mapping, whole passes, log, recalculated atoms)', 60),
+                   ('c14_matcher', corr_matcher, 'correspondence: the set of mappings get_mapping yields for a rule pattern == the embeddings of the matcher '
+                    'specification Model.StandardizeMatch (matched rules + sample of unmatched ones); standardize() of small molecules entirely inside Coq', 40),
                    ('c14_hydrogens', corr_hydrogens, 'correspondence: explicify_hydrogens / implicify_hydrogens == Coq model (whole molecule incl. insertion order, exceptions)', 60),
                    ('c14_resonance', corr_resonance, 'correspondence: fix_resonance == Coq application of the accepted paths + hydrogen recalculation', 60)]
         for name, fn, what, shard in batches:
